@@ -133,6 +133,8 @@ class ObjV:          # object with attributes (UTPM instance): attrs name -> val
     def __init__(s, cls, attrs): s.cls, s.attrs = cls, dict(attrs)
 class TypeV:
     def __init__(s, name): s.name = name
+class NdV:           # plain ndarray constant: one cell per batch position, no coefficient axis
+    def __init__(s, t): s.t = t
 
 
 def is_scalar(v): return isinstance(v, (IntV, Cell))
@@ -289,7 +291,7 @@ class Exec:
             raise Undecided('constant %r' % (v,))
         if isinstance(n, ast.Name):
             if n.id not in st.env:
-                if n.id in ('int', 'float', 'complex'): return TypeV(n.id)
+                if n.id in ('int', 'float', 'complex', 'object'): return TypeV(n.id)
                 if n.id in self.callees: return FuncV(n.id)          # module-level function under contract
                 raise Undecided('unknown name ' + n.id)
             return st.env[n.id]
@@ -374,6 +376,8 @@ class Exec:
             raise Undecided('__class__ of non-object')
         if n.attr == 'T': raise Undecided('.T')
         base = self.ev(n.value)
+        if isinstance(base, TypeV) and base.name == 'UTPM': return ('clsmethod', n.attr)
+        if isinstance(base, NdV) and n.attr in ('reshape', 'copy', 'flatten'): return ('arrmethod', base, n.attr)
         if isinstance(base, ModV): return self.modattr(base, n.attr)
         if isinstance(base, ObjV):
             if n.attr in base.attrs: return base.attrs[n.attr]
@@ -411,7 +415,9 @@ class Exec:
 
     def binop(self, op, l, r):
         st = self.st
-        if isinstance(l, tuple) and isinstance(r, tuple) and isinstance(op, ast.Add) and not (l and isinstance(l[0], str)): return l + r
+        if isinstance(l, tuple) and isinstance(r, tuple) and isinstance(op, ast.Add):
+            if (l and l[0] == 'shape') or (r and r[0] == 'shape'): return ('shape', (r[1] if r and r[0] == 'shape' else l[1]))
+            return l + r
         if isinstance(l, IntV) and isinstance(r, IntV):
             if isinstance(op, ast.Div):
                 if st.alg.name == 'int': raise Undecided('int / int in index mode')
@@ -420,6 +426,8 @@ class Exec:
             if isinstance(op, ast.Mod): return IntV(self.mod(l.t, r.t))
             if isinstance(op, ast.Pow): raise Undecided('int ** int')
             return IntV({ast.Add: lambda: l.t + r.t, ast.Sub: lambda: l.t - r.t, ast.Mult: lambda: l.t * r.t}[type(op)]())
+        if isinstance(l, NdV): l = Cell(l.t)
+        if isinstance(r, NdV): r = Cell(r.t)
         if is_scalar(l) and is_scalar(r): return Cell(self.cellop(op, l.t, r.t))
         if isinstance(l, BoolV) or isinstance(r, BoolV): raise Undecided('arithmetic on bool')
         if is_scalar(l): f = st.elem(r); return Lazy(r.length, lambda i: self.cellop(op, l.t, f(i)))
@@ -473,7 +481,12 @@ class Exec:
             sl = sl.elts[0]
         if isinstance(sl, ast.Constant) and sl.value is Ellipsis: return v
         if isinstance(sl, ast.Slice) and sl.lower is None and sl.upper is None and sl.step is None: return v
-        if isinstance(v, Lazy): raise Undecided('subscript of element-wise expression')
+        if isinstance(v, Lazy):
+            if not isinstance(sl, ast.Slice):
+                idx = self.ev(sl)
+                if isinstance(idx, IntV):
+                    st.add_oblig('index in range: ' + ast.unparse(sl), z3.And(0 <= idx.t, idx.t < v.length), 'safety'); return Cell(v.f(idx.t))
+            raise Undecided('subscript of element-wise expression')
         if not isinstance(v, View): raise Undecided('subscript of non-array %s' % type(v).__name__)
         if isinstance(sl, ast.Slice):
             step = 1
@@ -551,6 +564,7 @@ class Exec:
         if fn == 'isinstance' and len(n.args) == 2:
             v = self.ev(n.args[0]); tn = ast.unparse(n.args[1])
             if isinstance(v, ObjV): return tn.split('.')[-1] in (v.cls, 'cls') or tn in ('cls', 'self.__class__')
+            if isinstance(v, NdV): return tn in ('numpy.ndarray', 'ndarray')
             if isinstance(v, (IntV, Cell, bool)) or v is None: return False if tn.split('.')[-1] in ('UTPM', 'cls', 'ndarray', 'Function') or tn in ('self.__class__', 'numpy.ndarray') else _undecided('isinstance of scalar against ' + tn)
             raise Undecided('isinstance')
         if fn == 'numpy.isscalar' and len(n.args) == 1:
@@ -633,8 +647,19 @@ class Exec:
             if isinstance(a0, Lazy): a0 = self.materialize(a0)
             if isinstance(a0, View): return ObjV('UTPM', {'data': a0})
             raise Undecided('constructor argument')
+        if fn in ('UTPM._broadcast_arrays', 'cls._broadcast_arrays', 'self._broadcast_arrays') and len(n.args) == 2:
+            # assumption A3b: _broadcast_arrays only transposes/broadcasts the batch axes; along the coefficient axis a Taylor
+            # polynomial is unchanged and a plain array (reshaped to (1,1)+shape) is repeated for every order
+            a0, b0 = self.ev(n.args[0]), self.ev(n.args[1])
+            conv = lambda v, other: Lazy(other.length, lambda i, t=v.t: t) if isinstance(v, NdV) else v
+            ref = a0 if isinstance(a0, (View, Lazy)) else b0
+            return (conv(a0, ref), conv(b0, ref))
+        if fn in ('numpy.may_share_memory', 'numpy.shares_memory') and len(n.args) == 2:
+            a0, b0 = self.ev(n.args[0]), self.ev(n.args[1])
+            return isinstance(a0, View) and isinstance(b0, View) and a0.base == b0.base
         # generic: callee under contract, opaque function value, method of object
         f = self.ev(n.func)
+        if isinstance(f, tuple) and f and f[0] == 'arrmethod' and isinstance(f[1], NdV): return f[1]          # reshape/copy of a constant array
         if isinstance(f, tuple) and f and f[0] == 'clsmethod':
             return self.call_contract(f[1], n, kw)
         if isinstance(f, FuncV):
